@@ -10,7 +10,8 @@ namespace ScyllaVerif.C08
 @[simp] theorem bind_def (m : M α) (f : α → M β) (s : St) :
     (m >>= f) s = match m s with
       | (.ok a, s') => f a s'
-      | (.err k, s') => (.err k, s') := rfl
+      | (.err k, s') => (.err k, s')
+      | (.panic k, s') => (.panic k, s') := rfl
 
 @[simp] theorem pure_def (a : α) (s : St) : (pure a : M α) s = (.ok a, s) := rfl
 
@@ -19,13 +20,15 @@ namespace ScyllaVerif.C08
 theorem tag_def (t : String) (m : M α) (s : St) :
     tag t m s = match m s with
       | (.ok a, s') => (.ok a, s')
-      | (.err k, s') => (.err (t ++ "." ++ k), s') := rfl
+      | (.err k, s') => (.err (t ++ "." ++ k), s')
+      | (.panic k, s') => (.panic k, s') := rfl
 
 /-! ### allocation / consumption accounting
 
 `AllocW w A B m`: on success the reader `m` consumed at least `w` bytes more than the element slots it requested
 (`alloc` grows by at most `consumed - w`) and never grows the buffer or the recorded depth bound; on failure it
-requested at most `A * remaining + B` slots.  In both cases the recorded recursion depth stays below `DEPTH_BOUND`. -/
+requested at most `A * remaining + B` slots.  In both cases the recorded recursion depth stays below `DEPTH_BOUND`;
+what is left of the buffer is a suffix of what was there; and the reader NEVER PANICS (third branch). -/
 
 theorem mul_split (A a b : Nat) (h : b ≤ a) (hA : 1 ≤ A) : A * b + (a - b) ≤ A * a := by
   have e : A * b + A * (a - b) = A * a := by rw [← Nat.mul_add]; congr 1; omega
@@ -38,46 +41,30 @@ def DEPTH_BOUND : Nat := 257
 def AllocW (w A B : Nat) (m : M α) : Prop :=
   ∀ s : St, match m s with
     | (.ok _, s') => s'.alloc + s'.buf.length + w ≤ s.alloc + s.buf.length ∧ s'.buf.length ≤ s.buf.length ∧
-        s'.depth ≤ max s.depth DEPTH_BOUND
+        s'.depth ≤ max s.depth DEPTH_BOUND ∧ s'.buf <:+ s.buf
     | (.err _, s') => s'.alloc ≤ s.alloc + A * s.buf.length + B ∧ s'.depth ≤ max s.depth DEPTH_BOUND
+    | (.panic _, _) => False
 
 theorem aw_mono {m : M α} (h : AllocW w A B m) (hw : w' ≤ w) (hA : A ≤ A') (hB : B ≤ B') :
     AllocW w' A' B' m := by
   intro s
   have := h s
-  split <;> rename_i heq <;> rw [heq] at this <;> simp only at this ⊢
-  · omega
-  · have : A * s.buf.length ≤ A' * s.buf.length := Nat.mul_le_mul_right _ hA
-    omega
+  cases hms : m s with
+  | mk o s1 =>
+    rw [hms] at this
+    cases o with
+    | ok a => simp only at this ⊢; exact ⟨by omega, this.2.1, this.2.2.1, this.2.2.2⟩
+    | err k =>
+      simp only at this ⊢
+      have : A * s.buf.length ≤ A' * s.buf.length := Nat.mul_le_mul_right _ hA
+      omega
+    | panic k => exact this
 
 theorem aw_pure (a : α) : AllocW 0 A B (pure a : M α) := by
-  intro s; simp only [pure_def]; omega
+  intro s; simp only [pure_def]; exact ⟨by omega, by omega, by omega, List.suffix_refl _⟩
 
 theorem aw_fail (k : String) : AllocW w A B (fail k : M α) := by
   intro s; simp only [fail_def]; omega
-
-theorem aw_bind {m : M α} {f : α → M β} (hA : 1 ≤ A) (hm : AllocW w1 A B m)
-    (hf : ∀ a, AllocW w2 A B (f a)) : AllocW (w1 + w2) A B (m >>= f) := by
-  intro s
-  have h1 := hm s
-  simp only [bind_def]
-  cases hms : m s with
-  | mk o s1 =>
-    rw [hms] at h1
-    cases o with
-    | err k => simp only at h1 ⊢; exact h1
-    | ok a =>
-      simp only at h1 ⊢
-      have h2 := hf a s1
-      cases hfs : f a s1 with
-      | mk o2 s2 =>
-        rw [hfs] at h2
-        cases o2 with
-        | ok b => simp only at h2 ⊢; omega
-        | err k =>
-          simp only at h2 ⊢
-          have := mul_split A s.buf.length s1.buf.length h1.2.1 hA
-          omega
 
 /-- `bind` where the continuation is only known to behave for the values the first reader can return. -/
 theorem aw_bindP {m : M α} {f : α → M β} (P : α → Prop) (hA : 1 ≤ A) (hm : AllocW w1 A B m)
@@ -91,6 +78,7 @@ theorem aw_bindP {m : M α} {f : α → M β} (P : α → Prop) (hA : 1 ≤ A) (
     rw [hms] at h1
     cases o with
     | err k => simp only at h1 ⊢; exact h1
+    | panic k => exact h1.elim
     | ok a =>
       simp only at h1 ⊢
       have hp := hP s a s1 hms
@@ -99,11 +87,18 @@ theorem aw_bindP {m : M α} {f : α → M β} (P : α → Prop) (hA : 1 ≤ A) (
       | mk o2 s2 =>
         rw [hfs] at h2
         cases o2 with
-        | ok b => simp only at h2 ⊢; omega
+        | ok b =>
+          simp only at h2 ⊢
+          exact ⟨by omega, by omega, by omega, h2.2.2.2.trans h1.2.2.2⟩
         | err k =>
           simp only at h2 ⊢
           have := mul_split A s.buf.length s1.buf.length h1.2.1 hA
           omega
+        | panic k => exact h2.elim
+
+theorem aw_bind {m : M α} {f : α → M β} (hA : 1 ≤ A) (hm : AllocW w1 A B m)
+    (hf : ∀ a, AllocW w2 A B (f a)) : AllocW (w1 + w2) A B (m >>= f) :=
+  aw_bindP (fun _ => True) hA hm (fun _ _ _ _ => trivial) (fun a _ => hf a)
 
 theorem aw_bind0 {m : M α} {f : α → M β} (hA : 1 ≤ A) (hm : AllocW 0 A B m)
     (hf : ∀ a, AllocW w A B (f a)) : AllocW w A B (m >>= f) := by
@@ -126,7 +121,8 @@ theorem aw_takeN (n : Nat) (k : String) : AllocW n A B (takeN n k) := by
   intro s
   by_cases h : s.buf.length < n
   · simp only [takeN, h, if_true]; omega
-  · simp only [takeN, h, if_false, List.length_drop]; omega
+  · simp only [takeN, h, if_false, List.length_drop]
+    exact ⟨by omega, by omega, by omega, List.drop_suffix _ _⟩
 
 theorem aw_ite {c : Prop} [Decidable c] {a b : M α} (ha : AllocW w A B a) (hb : AllocW w A B b) :
     AllocW w A B (if c then a else b) := by
@@ -134,7 +130,7 @@ theorem aw_ite {c : Prop} [Decidable c] {a b : M α} (ha : AllocW w A B a) (hb :
 
 /-- The ghost depth never influences anything and `noteDepth` / `remaining` consume and request nothing. -/
 theorem aw_noteDepth (d : Nat) (hd : d ≤ DEPTH_BOUND) : AllocW 0 A B (noteDepth d) := by
-  intro s; simp only [noteDepth]; omega
+  intro s; simp only [noteDepth]; exact ⟨by omega, by omega, by omega, List.suffix_refl _⟩
 
 theorem aw_loopN {m : M α} (hA : 1 ≤ A) (h : AllocW w A B m) : ∀ n, AllocW (n * w) A B (loopN n m)
   | 0 => by simpa [loopN] using (aw_pure (A := A) (B := B) ([] : List α))
@@ -164,6 +160,7 @@ theorem aw_cappedLoop {body : M α} {k : List α → M β} (hA : 1 ≤ A) (c n :
   | mk o s1 =>
     rw [hls] at h1
     cases o with
+    | panic e => exact h1.elim
     | err e =>
       simp only at h1 ⊢
       rw [Nat.add_mul]; omega
@@ -174,7 +171,8 @@ theorem aw_cappedLoop {body : M α} {k : List α → M β} (hA : 1 ≤ A) (c n :
       | mk o2 s2 =>
         rw [hks] at h2
         cases o2 with
-        | ok b => simp only at h2 ⊢; omega
+        | panic e => exact h2.elim
+        | ok b => simp only at h2 ⊢; exact ⟨by omega, by omega, by omega, h2.2.2.2.trans h1.2.2.2⟩
         | err e =>
           simp only at h2 ⊢
           have := mul_split (A + 1) s.buf.length s1.buf.length h1.2.1 (by omega)
@@ -192,6 +190,7 @@ theorem aw_u16Loop {body : M α} {k : List α → M β} (hA : 1 ≤ A) (n U : Na
   | mk o s1 =>
     rw [hls] at h1
     cases o with
+    | panic e => exact h1.elim
     | err e => simp only at h1 ⊢; omega
     | ok l =>
       simp only [Nat.mul_one] at h1 ⊢
@@ -200,7 +199,8 @@ theorem aw_u16Loop {body : M α} {k : List α → M β} (hA : 1 ≤ A) (n U : Na
       | mk o2 s2 =>
         rw [hks] at h2
         cases o2 with
-        | ok b => simp only at h2 ⊢; omega
+        | panic e => exact h2.elim
+        | ok b => simp only at h2 ⊢; exact ⟨by omega, by omega, by omega, h2.2.2.2.trans h1.2.2.2⟩
         | err e =>
           simp only at h2 ⊢
           have := mul_split A s.buf.length s1.buf.length h1.2.1 hA
